@@ -32,16 +32,27 @@ func Decls(forest []*Node, o EmitOpts) []StructDecl {
 			kids      []*Node
 		}
 		var later []pending
+		lf, lg := 0, 0
 		for _, k := range kids {
 			prefix := []string{"", "*", "[]"}[k.Rep]
 			if k.Group {
 				groupNo++
+				lg++
+				fn := groupNo
+				if o.LocalNames {
+					fn = lg
+				}
 				tn := fmt.Sprintf("G%d", groupNo)
-				d.Fields = append(d.Fields, fmt.Sprintf("N%d %s%s", groupNo, prefix, tn))
+				d.Fields = append(d.Fields, fmt.Sprintf("N%d %s%s", fn, prefix, tn))
 				later = append(later, pending{tn, fmt.Sprintf("%s/%d", ctx, k.Rep), k.Kids})
 			} else {
 				leafNo++
-				d.Fields = append(d.Fields, fmt.Sprintf("F%d %s%s", leafNo, prefix, prims[(leafNo-1+o.Offset)%len(prims)]))
+				lf++
+				fn := leafNo
+				if o.LocalNames {
+					fn = lf
+				}
+				d.Fields = append(d.Fields, fmt.Sprintf("F%d %s%s", fn, prefix, prims[(leafNo-1+o.Offset)%len(prims)]))
 			}
 		}
 		idx := len(decls)
